@@ -1625,14 +1625,20 @@ func (vx *Vaxis) CanSixel() bool {
 }
 
 func (vx *Vaxis) CanReportColor() bool {
+	vx.mu.Lock()
+	defer vx.mu.Unlock()
 	return vx.caps.osc4
 }
 
 func (vx *Vaxis) CanReportForegroundColor() bool {
+	vx.mu.Lock()
+	defer vx.mu.Unlock()
 	return vx.caps.osc10
 }
 
 func (vx *Vaxis) CanReportBackgroundColor() bool {
+	vx.mu.Lock()
+	defer vx.mu.Unlock()
 	return vx.caps.osc11
 }
 
